@@ -356,51 +356,147 @@ fn call_unit<O: Val>() -> O {
     O::make(out_id)
 }
 
-fn drive<I: Val, O: Val>(bencher: divan::Bencher, entry: u8, cs: [bool; 4]) {
-    match entry {
-        0 => return bencher.bench(|| call_unit::<O>()),
-        1 => return bencher.bench_local(|| call_unit::<O>()),
-        _ => {}
+/// One call of the counter API on the bencher, in the order given by the case.
+#[derive(Clone, Copy, Debug, PartialEq)]
+enum CCall {
+    /// `with_inputs(gen)`
+    W,
+    /// `input_counter(|input| Kind::new(..))`
+    In(usize),
+    /// `count_inputs_as::<Kind>()` (inputs of type `u64` only)
+    As(usize),
+    /// `counter(Kind::new(7))`
+    Const(usize),
+}
+
+const CONST_COUNT: u64 = 7;
+
+impl Val for u64 {
+    /// Every input is the number 1 (so that `count_inputs_as` counts 1 per input);
+    /// events are numbered by ordinals, as for ZSTs.
+    fn make(_: u64) -> Self {
+        1
     }
-    let mut b = bencher.with_inputs(gen_input::<I>);
-    if cs[0] {
-        b = b.input_counter(|x: &I| BytesCount::new(count_input(0, x)));
-    }
-    if cs[1] {
-        b = b.input_counter(|x: &I| CharsCount::new(count_input(1, x)));
-    }
-    if cs[2] {
-        b = b.input_counter(|x: &I| CyclesCount::new(count_input(2, x)));
-    }
-    if cs[3] {
-        b = b.input_counter(|x: &I| ItemsCount::new(count_input(3, x)));
-    }
-    match entry {
-        2 => b.bench_values(call_value::<I, O>),
-        3 => b.bench_local_values(call_value::<I, O>),
-        4 => b.bench_refs(call_ref::<I, O>),
-        5 => b.bench_local_refs(call_ref::<I, O>),
-        _ => panic!("bad entry {entry}"),
+    fn carried(&self) -> Option<u64> {
+        None
     }
 }
 
-fn drive_shape(bencher: divan::Bencher, entry: u8, sh: [bool; 4], cs: [bool; 4]) {
+macro_rules! as_call {
+    (yes, $b:ident, $k:expr) => {
+        match $k {
+            0 => $b.count_inputs_as::<BytesCount>(),
+            1 => $b.count_inputs_as::<CharsCount>(),
+            2 => $b.count_inputs_as::<CyclesCount>(),
+            _ => $b.count_inputs_as::<ItemsCount>(),
+        }
+    };
+    (no, $b:ident, $k:expr) => {
+        panic!("count_inputs_as needs it=u")
+    };
+}
+
+macro_rules! const_call {
+    ($b:ident, $k:expr) => {
+        match $k {
+            0 => $b.counter(BytesCount::new(CONST_COUNT)),
+            1 => $b.counter(CharsCount::new(CONST_COUNT)),
+            2 => $b.counter(CyclesCount::new(CONST_COUNT)),
+            _ => $b.counter(ItemsCount::new(CONST_COUNT)),
+        }
+    };
+}
+
+macro_rules! drive_body {
+    ($I:ty, $O:ty, $as_ok:tt, $bencher:ident, $entry:ident, $seq:ident) => {{
+        let mut bencher = $bencher;
+        let split = $seq.iter().position(|c| *c == CCall::W).unwrap_or($seq.len());
+        for c in &$seq[..split] {
+            bencher = match *c {
+                CCall::Const(k) => const_call!(bencher, k),
+                other => panic!("{other:?} before with_inputs"),
+            };
+        }
+        match $entry {
+            0 => return bencher.bench(|| call_unit::<$O>()),
+            1 => return bencher.bench_local(|| call_unit::<$O>()),
+            _ => {}
+        }
+        let mut b = bencher.with_inputs(gen_input::<$I>);
+        for c in $seq.iter().skip(split + 1) {
+            b = match *c {
+                CCall::In(0) => b.input_counter(|x: &$I| BytesCount::new(count_input(0, x))),
+                CCall::In(1) => b.input_counter(|x: &$I| CharsCount::new(count_input(1, x))),
+                CCall::In(2) => b.input_counter(|x: &$I| CyclesCount::new(count_input(2, x))),
+                CCall::In(_) => b.input_counter(|x: &$I| ItemsCount::new(count_input(3, x))),
+                CCall::As(k) => as_call!($as_ok, b, k),
+                CCall::Const(k) => const_call!(b, k),
+                CCall::W => panic!("with_inputs twice"),
+            };
+        }
+        match $entry {
+            2 => b.bench_values(call_value::<$I, $O>),
+            3 => b.bench_local_values(call_value::<$I, $O>),
+            4 => b.bench_refs(call_ref::<$I, $O>),
+            5 => b.bench_local_refs(call_ref::<$I, $O>),
+            _ => panic!("bad entry {}", $entry),
+        }
+    }};
+}
+
+fn drive<I: Val, O: Val>(bencher: divan::Bencher, entry: u8, seq: &[CCall]) {
+    drive_body!(I, O, no, bencher, entry, seq)
+}
+
+fn drive_u64<O: Val>(bencher: divan::Bencher, entry: u8, seq: &[CCall]) {
+    drive_body!(u64, O, yes, bencher, entry, seq)
+}
+
+fn drive_shape(bencher: divan::Bencher, entry: u8, sh: [bool; 4], seq: &[CCall], input_u64: bool) {
     macro_rules! with_out {
-        ($i:ty) => {
+        ($f:ident $(, $i:ty)?) => {
             match (sh[2], sh[3]) {
-                (true, false) => drive::<$i, OZN>(bencher, entry, cs),
-                (true, true) => drive::<$i, OZD>(bencher, entry, cs),
-                (false, false) => drive::<$i, OSN>(bencher, entry, cs),
-                (false, true) => drive::<$i, OSD>(bencher, entry, cs),
+                (true, false) => $f::<$($i,)? OZN>(bencher, entry, seq),
+                (true, true) => $f::<$($i,)? OZD>(bencher, entry, seq),
+                (false, false) => $f::<$($i,)? OSN>(bencher, entry, seq),
+                (false, true) => $f::<$($i,)? OSD>(bencher, entry, seq),
             }
         };
     }
-    match (sh[0], sh[1]) {
-        (true, false) => with_out!(IZN),
-        (true, true) => with_out!(IZD),
-        (false, false) => with_out!(ISN),
-        (false, true) => with_out!(ISD),
+    if input_u64 {
+        assert!(!sh[0] && !sh[1], "it=u is a sized input without destructor");
+        return with_out!(drive_u64);
     }
+    match (sh[0], sh[1]) {
+        (true, false) => with_out!(drive, IZN),
+        (true, true) => with_out!(drive, IZD),
+        (false, false) => with_out!(drive, ISN),
+        (false, true) => with_out!(drive, ISD),
+    }
+}
+
+fn parse_seq(s: &str) -> Vec<CCall> {
+    s.split(',')
+        .filter(|t| !t.is_empty())
+        .map(|t| {
+            if t == "w" {
+                return CCall::W;
+            }
+            let k = match &t[1..] {
+                "B" => 0,
+                "C" => 1,
+                "Y" => 2,
+                "I" => 3,
+                _ => panic!("bad kind in {t}"),
+            };
+            match &t[..1] {
+                "i" => CCall::In(k),
+                "a" => CCall::As(k),
+                "c" => CCall::Const(k),
+                _ => panic!("bad counter call {t}"),
+            }
+        })
+        .collect()
 }
 
 // ---------------------------------------------------------------------------
@@ -421,6 +517,8 @@ fn run_case(line: &str) -> String {
     let mut entry = 0u8;
     let mut sh = [false; 4];
     let mut cs = [false; 4];
+    let mut cq: Option<Vec<CCall>> = None;
+    let mut input_u64 = false;
     let mut ss = Some(1u32);
     let mut sc = 1u32;
     let mut prec = 1000u128;
@@ -433,6 +531,8 @@ fn run_case(line: &str) -> String {
             "e" => entry = val.parse().expect("e"),
             "sh" => sh = bits4(val),
             "cs" => cs = bits4(val),
+            "cq" => cq = if val == "-" { None } else { Some(parse_seq(val)) },
+            "it" => input_u64 = val == "u",
             "u" => cfg.udrop = val == "1",
             "ss" => ss = if val == "-" { None } else { Some(val.parse().expect("ss")) },
             "cost" => cfg.cost = val.parse().expect("cost"),
@@ -461,6 +561,14 @@ fn run_case(line: &str) -> String {
     *CFG.write().unwrap_or_else(|e| e.into_inner()) = cfg;
     reset_thread();
 
+    // `cs=` alone is the sequence with_inputs, input_counter(kind) in kind order.
+    let show_counts = cq.is_some();
+    let seq: Vec<CCall> = cq.unwrap_or_else(|| {
+        let mut v = vec![CCall::W];
+        v.extend((0..4).filter(|k| cs[*k]).map(CCall::In));
+        v
+    });
+
     let mut options = divan::__private::BenchOptions::default();
     options.sample_size = ss;
     options.sample_count = Some(sc);
@@ -477,7 +585,7 @@ fn run_case(line: &str) -> String {
     let res = std::panic::catch_unwind(std::panic::AssertUnwindSafe(|| {
         v::run_bencher(
             &v::RunConfig { options: &options, threads, is_test, tsc_frequency: Some(freq), compute_stats: false },
-            &|bencher| drive_shape(bencher, entry, sh, cs),
+            &|bencher| drive_shape(bencher, entry, sh, &seq, input_u64),
         )
     }));
 
@@ -530,6 +638,23 @@ fn run_case(line: &str) -> String {
                 t[0].0, t[0].1, t[1].0, t[1].1, t[2].0, t[2].1, t[3].0, t[3].1,
                 info.current_count, info.max_count, info.current_size, info.max_size
             ));
+        }
+    }
+    if show_counts {
+        // Per kind: `i` computed from inputs / `c` constant / `-` none, then the recorded counts.
+        out.push_str(" | C");
+        if let Ok(dump) = &res {
+            for k in 0..4 {
+                let tag = if dump.uses_input_counts[k] {
+                    "i"
+                } else if dump.counts[k].is_empty() {
+                    "-"
+                } else {
+                    "c"
+                };
+                let vals: Vec<String> = dump.counts[k].iter().map(|c| c.to_string()).collect();
+                out.push_str(&format!(" {}:{}:{}", ["B", "C", "Y", "I"][k], tag, vals.join(",")));
+            }
         }
     }
     out
